@@ -48,6 +48,26 @@ CHECKS = [
      'technique': 'fault injection on generated handshake edits + '
                   'differential negotiation against a reference rule and an '
                   'independent peer'},
+    {'id': 'C05', 'memwire': True,
+     'text': 'Generated authentication histories (every method, validity '
+             'variant, user switch, pipelining, asynchronous validator gates '
+             'released in any order and in the middle of the set-up of the '
+             'next request, nine authorized_keys option sets) driven by an '
+             'independent client; history invariants: success only with a '
+             'valid credential for that user and a True validator result, '
+             'nothing serviced before success, and pty / forced command / '
+             'environment / direct-tcpip / tcpip-forward behaviour after '
+             'success equal to the accepted credential\'s restrictions. '
+             'Plus an enumerated race grid (gate fires at every loop-step '
+             'offset of the next request\'s set-up).',
+     'note': 'refpeer builds and signs the messages; validity ground truth is '
+             'the harness table; GSS/host-based/X.509/sk methods not '
+             'runnable; converse clause (valid credential admitted) checked '
+             'for password, publickey and keyboard-interactive through the '
+             'same histories.',
+     'technique': 'model-based PBT over message histories with validator '
+                  'gates (reference model of credential validity and '
+                  'restrictions)'},
     {'id': 'C06', 'memwire': True, 'level': 'fault_enumeration',
      'text': 'Complete enumeration of victim role x strict-KEX x 9 '
              'positions of the handshake/auth/session dialogue x message '
